@@ -31,7 +31,7 @@ partial def diag (t : Scad FNum) (s : Stmt) : List String :=
   match t, s with
   | .mk op cs, .mk name args body =>
     let here :=
-      match decodeOp FNum.read FNum.zero name args with
+      match decodeOp FNum.read FNum.zero name (completeArgs name args) with
       | some op' => if op' == op then [] else [s!"argument_binds_differently:{opName op}"]
       | none =>
         (match op with
@@ -71,7 +71,7 @@ def handle (withBinding : Bool) : Handler := fun args impl => do
       if shapesT != shapesS then fails := fails ++ ["parsed_shape_differs_from_tree"]
       else if withBinding then
         for (t, s) in ts.zip stmts do
-          match decodeStmt FNum.read FNum.zero s with
+          match decodeStmt FNum.read FNum.zero (completeStmt s) with
           | some t' => if !scadBeq t t' then fails := fails ++ firstN (diag t s) 8
           | none => fails := fails ++ firstN (diag t s) 8
   pure (model, fails.eraseDups)
